@@ -87,6 +87,7 @@ Rounds(L, nf, level, lo, hi, bLo, bHi, tg) ==
            lastIn == CHOOSE f \in su.in0 : \A g \in su.in0 : IKLeq(Largest(g), Largest(f))
            tg2 == tg \cup (IF level = 0 /\ start0 # direct THEN {"close0"} ELSE {})
                      \cup (IF level = 0 /\ bLo /\ RangeLo(start0) < lo THEN {"close0down"} ELSE {})
+                     \cup (IF level = 0 /\ bLo /\ (\E f \in start0 : Largest(f).k < lo) THEN {"close0chain"} ELSE {})
                      \cup (IF su.grew THEN {"expand"} ELSE {})
                      \cup (IF su.bnd0 THEN {"boundary0"} ELSE {}) \cup (IF su.bnd1 THEN {"boundary1"} ELSE {})
                      \cup (IF su.bndx THEN {"boundaryx"} ELSE {})
@@ -211,6 +212,16 @@ DumpA == IF Cardinality(lv[0]) >= 4
                                                  \cup (IF AutoFirstSingle THEN {"auto0first"} ELSE {}), ops |-> ops]>>)
          ELSE TRUE
 GConstraintA == Cardinality(lv[0]) <= 4 /\ DumpA
+\* ---- a third scenario family: chains of overlapping level-0 files (made by reopen) and a ranged level-0 compaction ----
+GNextC == \/ NStruct \in 0..2 /\ MemN < 2 /\ \E k \in Keys : (GPut(k) \/ GDel(k))
+          \/ NStruct \in 0..2 /\ MemN >= 1 /\ GReopen
+          \/ NStruct = 3 /\ \E b, e \in Keys \cup {NoKey} : GCompact(0, b, e)
+GSpecC == GInit /\ [][GNextC]_gvars
+DumpC == IF NStruct = 4 /\ (tags \cap {"close0", "close0down", "close0chain"}) # {}
+         THEN ndJsonSerialize(OutDir \o "/c" \o ToString(TLCGet("stats").traces) \o "_" \o ToString(Cardinality(tags)) \o ".ndjson",
+                              <<[tags |-> tags, ops |-> ops]>>)
+         ELSE TRUE
+GConstraintC == GBound /\ DumpC
 \* ---- targeted generation: breadth-first search for the SHORTEST behaviours that reach a rare situation ----
 \* (run with VIEW GView so that the operation history does not split states, and with -continue to collect several)
 CONSTANT Target
